@@ -9,6 +9,7 @@ solved for mixtures/orders in which a used identifier is declared later or never
 every SAT mixture is rendered and compiled for confirmation."""
 from __future__ import annotations
 
+from ..paths import child_env
 import concurrent.futures as cf
 import json
 import multiprocessing as mp
@@ -24,8 +25,9 @@ from ..report import Check
 from . import c11, rates_props as rp
 
 NAME_ERR = re.compile(r"error: (use of undeclared identifier '([^']+)'|redefinition of '([^']+)'|no member named '([^']+)'|unknown type name '([^']+)'|no matching function for call to '([^']+)')")
-TD = "/repo/tests/data"
-EX = "/repo/naunet/examples"
+from ..paths import REPO
+TD = REPO + "/tests/data"
+EX = REPO + "/naunet/examples"
 
 
 def gas_file(fmt):
@@ -48,6 +50,21 @@ def matrix(thorough):
     for name, fmt, model, mk, user in c11.CASES[:5]:
         text = "\n".join(encoders.ENC[fmt](r) for r in mk()) + "\n"
         cases.append((f"grain-{name}", {"files": [{"name": f"n.{fmt}", "content": text}], "network": {"filelist": f"n.{fmt}", "fileformats": fmt, "grain_model": model}}, backs))
+    # grain-surface photoreactions (Leeds type 12) of the ices that are self-shielded like their gas counterparts
+    def photo_lines():
+        L = c11.leeds_lines()
+        add = lambda rs, ps, code, a="1.00E+00", c="0.0": L.append({"reactants": rs, "products": ps, "a": a, "b": "0.00", "c": c, "tmin": "0", "tmax": "0", "code": code, "idx": len(L) + 1})
+        add(["N2"], ["GN2"], 7)
+        add(["H2"], ["GH2"], 7)
+        add(["H2", "PHOTON"], ["H", "H"], 4, a="5.70E-11", c="4.2")
+        add(["GH2", "PHOTON"], ["GH", "GH"], 12, a="5.70E-11", c="4.2")
+        add(["GCO", "PHOTON"], ["GC", "GO"], 12, a="2.00E-10", c="3.5")
+        add(["GN2", "PHOTON"], ["GN", "GN"], 12, a="2.30E-10", c="3.9")
+        add(["GH2O", "PHOTON"], ["GOH", "GH"], 12, a="8.00E-10", c="2.2")
+        return L
+    ptext = "\n".join(encoders.leeds(r) for r in photo_lines()) + "\n"
+    for model, sh in (("hh93", {}), ("hh93i", {"H2": "L96Table", "CO": "V09Table", "N2": "L13Table"})):
+        cases.append((f"grain-surface-photo-{model}", {"files": [{"name": "p.leeds", "content": ptext}], "network": {"filelist": "p.leeds", "fileformats": "leeds", "grain_model": model, "shielding": sh}}, ["dense", "odeint"]))
     # mixtures of formats
     cases.append(("mix-kida+krome", {"network": {"filelist": [f"{TD}/minimal.kida", f"{TD}/minimal.krome"], "fileformats": ["kida", "krome"]}}, backs))
     cases.append(("mix-krome+kida", {"network": {"filelist": [f"{TD}/minimal.krome", f"{TD}/minimal.kida"], "fileformats": ["krome", "kida"]}}, ["dense"]))
@@ -170,7 +187,7 @@ def registry(work):
     inp, outp = os.path.join(work, "reg_in.json"), os.path.join(work, "reg_out.json")
     json.dump(lines, open(inp, "w"))
     env = dict(os.environ, TQDM_DISABLE="1")
-    env.pop("PYTHONPATH", None)
+    child_env(env)
     r = subprocess.run([proj.PY, "-c", REGISTRY, inp, outp], capture_output=True, text=True, env=env, cwd=work, timeout=300)
     if not os.path.exists(outp):
         raise RuntimeError("registry worker failed: " + (r.stderr or r.stdout)[-400:])
